@@ -180,8 +180,10 @@ bool StreamAckManager::handleStanza(const QDomElement &stanza)
         return true;
     }
 
+    // Only stanzas received on a session with stream management belong to its handled count:
+    // counting on a session without stream management would corrupt the 'h' of a later <resume/>.
     auto tagName = stanza.tagName();
-    if (tagName == u"message" || tagName == u"presence" || tagName == u"iq") {
+    if (m_enabled && (tagName == u"message" || tagName == u"presence" || tagName == u"iq")) {
         m_lastIncomingSequenceNumber++;
     }
     return false;
